@@ -122,12 +122,16 @@ impl SymbolTable {
     pub fn resolve(&mut self, name: &str, depth: usize) -> Option<Rc<Symbol>> {
         if let Some(symbols) = self.store.get(name) {
             for symbol in symbols.iter().rev() {
-                if symbol.depth <= depth {
+                // A captured (free) symbol keeps the depth it had in the enclosing
+                // function; it is visible everywhere in this function.
+                if symbol.depth <= depth || symbol.scope == SymbolScope::Free {
                     return Some(Rc::clone(symbol));
                 }
             }
         } else if let Some(outer) = &mut self.outer {
-            if let Some(obj) = outer.resolve(name, depth) {
+            // Every symbol still present in the enclosing table is visible at
+            // the point where this function is written.
+            if let Some(obj) = outer.resolve(name, usize::MAX) {
                 if matches!(
                     obj.scope,
                     SymbolScope::Global | SymbolScope::BuiltinFn | SymbolScope::BuiltinVar
@@ -139,6 +143,17 @@ impl SymbolTable {
             }
         }
         None
+    }
+
+    /// Forget the bindings of a block that has ended: drop the variables
+    /// defined deeper than 'depth' so that they no longer hide outer bindings.
+    pub fn leave_block(&mut self, depth: usize) {
+        for symbols in self.store.values_mut() {
+            symbols.retain(|s| {
+                s.depth <= depth || !matches!(s.scope, SymbolScope::Global | SymbolScope::Local)
+            });
+        }
+        self.store.retain(|_, symbols| !symbols.is_empty());
     }
 
     pub fn define_builtin_fn(&mut self, index: usize, name: &str) -> Rc<Symbol> {
